@@ -516,6 +516,8 @@ class SPRekey(FSContract):
                     from .jobfs import SDoc
                     o.fields["_document"] = SDoc(LIn(p, old, Name.DOC), True)
                     o.fields["_stores"] = "stores-of-old-id"
+                if ex.decide(None, f"pre:{tag} is open as a context manager (_cwd not empty)"):
+                    o.fields["_cwd"] = ["directory-the-job-was-entered-from"]
             return o
 
         sd.fields.update(_jobs=SJobSeq(mk_elem), _filename=LIn(p, old, Name.SP), _write_concern=False, _data=SSP(newsp))
@@ -869,15 +871,35 @@ class JobMove(FSContract):
 
 class ProjectClone(FSContract):
     target = f"{PRJ}.Project.clone"
-    properties = ("C03", "C04", "C11", "C13", "C16")
+    properties = ("C01", "C03", "C04", "C11", "C13", "C16")
     shard_bits = 2
-    inline = GETTERS + (f"{JOB}.Job.statepoint", f"{JOB}._StatePointDict.__init__", f"{PRJ}.Project._register")
+    inline = GETTERS + (f"{JOB}.Job.statepoint", f"{JOB}.Job.cached_statepoint", f"{JOB}._StatePointDict.__init__", f"{PRJ}.Project._register")
     callees = {f"{PRJ}.Project.open_job": stub_open_job_by_sp, f"{JOB}._StatePointDict.load": stub_sp_load}
+
+    def make_ctx(self, case):
+        import types
+        ctx = super().make_ctx(case)
+        # only reached by code that reads the state point through Job.cached_statepoint instead of Job.statepoint (not the current code)
+        ctx.externals[types.MappingProxyType] = lambda interp, v: v
+
+        def get_sp(interp, b):
+            v = z3.Const(interp.ex.fresh_name("sp_looked_up"), SPv)
+            interp.ex.assume(z3.And(CALC(v) == b["job_id"].e, v != NONEV))
+            interp.ex.assumptions_used.add("Project._get_statepoint: a validated lookup returns a state point hashing to the id (contract GetSP)")
+            return SSP(v)
+        ctx.callee_contracts[f"{PRJ}.Project._get_statepoint"] = get_sp
+        return ctx
 
     def setup(self, interp, case):
         ex, ctx = interp.ex, interp.ctx
         src, dst = setup_two_projects(interp)
         job = mk_job(interp, src, "me")
+        if job.fields["_statepoint_requires_init"] is False and ex.decide(None, "pre:the read-only cached state point is stale (the handle was re-keyed)"):
+            # reachable: a state point change through a materialised handle does not refresh _cached_statepoint (design note F4); the copy is
+            # filed under the id of the state point the job has *now* (clause returns_the_destination_handle), C01
+            stale = z3.Const("sp_stale_cached", SPv)
+            ex.assume(stale != NONEV)
+            job.fields["_cached_statepoint"] = SSP(stale)
         ex.assume(z3.And(src.fields["_sp_cache"].valid(), dst.fields["_sp_cache"].valid()))
         pre = {"job": job, "p": src.p, "q": dst.p, "me": job.me, "src": src, "dst": dst}
         ctx.ghost["pre"] = pre
@@ -988,7 +1010,7 @@ def stub_rekey(interp, b):
 
 class SPGetter(FSContract):
     target = f"{JOB}.Job.statepoint"
-    properties = ("C01", "C02", "C03", "C08", "C09")
+    properties = ("C01", "C02", "C03", "C08", "C09", "C11")
     inline = GETTERS + (f"{JOB}._StatePointDict.__init__", f"{PRJ}.Project._register")
     callees = {f"{JOB}._StatePointDict.load": stub_sp_load}
 
